@@ -34,12 +34,12 @@ _ProductErrorChildren: TypeAlias = t.Dict[t.Union[int, str], ErrorNode]
 
 def data_is_sequence(val: t.Any) -> TypeGuard[t.Sequence[t.Any]]:
     """Return whether `val` is a sequence-like data type."""
-    return isinstance(val, t.Sequence) and not isinstance(val, (str, bytes, bytearray))
+    return isinstance(val, t.Sequence) and not isinstance(val, (str, bytes, bytearray, memoryview))
 
 
 def data_is_iterable(val: t.Any) -> TypeGuard[t.Sequence[t.Any]]:
     """Return whether `val` is an iterable (not str or bytes) data type."""
-    return isinstance(val, t.Iterable) and not isinstance(val, (str, bytes, bytearray))
+    return isinstance(val, t.Iterable) and not isinstance(val, (str, bytes, bytearray, memoryview))
 
 
 def data_is_mapping(val: t.Any) -> TypeGuard[t.Mapping[t.Any, t.Any]]:
